@@ -3,6 +3,8 @@ package main
 import (
 	"fmt"
 	"os"
+
+	"golang.org/x/tools/go/ssa"
 )
 
 // debugDump prints the SSA of module functions whose key name matches one of args.
@@ -37,6 +39,33 @@ func debugFsx(repo string) int {
 	}
 	for _, e := range fsEffects(w) {
 		fmt.Printf("%-22s %-45s %-10s excl=%-5v %v\n", w.Pos(e.Site.Instr.Pos()), e.key(w), e.Kind, e.Excl, e.Roots)
+	}
+	return 0
+}
+
+func debugDet(repo string) int {
+	w, err := LoadRepo(repo, BuildConfig{GOOS: "linux", GOARCH: "amd64"})
+	if err != nil {
+		fmt.Println("ERROR", err)
+		return 2
+	}
+	g := w.Graph()
+	var roots []*ssa.Function
+	for _, n := range detRegionRoots {
+		roots = append(roots, w.Fn(n))
+	}
+	reach, _ := g.Reach(roots...)
+	all := map[*ssa.Function]bool{}
+	for _, f := range w.ModuleFuncs() {
+		all[f] = true
+	}
+	fmt.Println("region functions:", len(reach), "of", len(all))
+	for _, s := range detSites(w, all) {
+		in := "out"
+		if reach[s.Fn] {
+			in = "IN "
+		}
+		fmt.Printf("%s %s %-28s %s  ## %s\n", s.Kind, in, w.Pos(s.Instr.Pos()), s.key(w), s.Proved)
 	}
 	return 0
 }
